@@ -20,6 +20,8 @@
    does so inside the step (the worker dequeues eagerly, a freed lock is handed on).
    One producer: a new Put is not issued while another Put is blocked (runAggregator is a single
    goroutine); if the schedule does so anyway the model queues it behind the blocked one.
+   The dispatch of Put does not look at the context: a Put whose context is cancelled (before the call
+   - memdb stores regardless - or between the commit and the dispatch) is the same event EPut.
    Go iterates over the callbacks map in random order; the model uses registration order, and the
    correspondence compares only what does not depend on that order. *)
 From Coq Require Import ZArith List Bool.
